@@ -33,6 +33,13 @@
 (* `Variant` (negative configurations: TLC must find the lost wake-up /    *)
 (* deadlock / zombie there).                                               *)
 (*                                                                         *)
+(* Correspondence with the simulator (yash-env/src/system/virtual.rs):     *)
+(*   st = "Run"    <-> ProcessState::Running                                *)
+(*   st = "Zombie" <-> Halted(Exited|Signaled) with state_has_changed set   *)
+(*   st = "Reaped" <-> Halted(..) with state_has_changed cleared            *)
+(* so the `changed` flag is st = "Zombie" (ChangedKids).  Stopped children *)
+(* and job control are outside the script shapes and are not modelled.     *)
+(*                                                                         *)
 (* The model is written as functions on a state record S (Kind, Apply,     *)
 (* DoCollect) so that Trace_Procs can compose the very same steps to       *)
 (* validate what one scheduling step of the real shell did.                *)
